@@ -1,5 +1,5 @@
 #!/bin/sh
 # re-runs every claimed quick check on the unchanged tree (refreshes evidence/), 4 at a time
-cd /verif
+cd "$(dirname "$0")/.."
 ids=$(python3 -c "import json;print(' '.join(c['property_id'] for c in json.load(open('MANIFEST.json'))['checks']))")
 echo $ids | tr ' ' '\n' | xargs -P 4 -I{} sh -c './check {} quick 2>&1 | tail -1'
